@@ -106,7 +106,7 @@ func runApiCase(c apiCase) (viol string, infra error) {
 				time.Sleep(time.Millisecond)
 			}
 			last, since := p.Conn.Unread(), time.Now()
-			for time.Since(since) < 500*time.Millisecond {
+			for time.Since(since) < 3*time.Second {
 				time.Sleep(5 * time.Millisecond)
 				if n := p.Conn.Unread(); n != last {
 					last, since = n, time.Now()
